@@ -57,6 +57,7 @@ def run_chunk(exe, backend, variant, scenario, base, first, count, opts, samples
         done = 0
         cur = None
         finished = False
+        restart = False
         for line in out.splitlines():
             if line.startswith("BEGIN "):
                 cur = int(line.split()[1])
@@ -69,8 +70,13 @@ def run_chunk(exe, backend, variant, scenario, base, first, count, opts, samples
                 cur = None
             elif line.startswith("END "):
                 finished = True
+            elif line.startswith("RESTART"):
+                restart = True
         if finished:
             break
+        if restart:   # the worker asked for a fresh process (e.g. after a leak report); nothing died
+            i = i + done
+            continue
         # the worker died in run number `done` of this chunk
         deaths.append({"seed": cur, "index": i + done, "rc": rc, "stderr": err[-6000:], "exe": exe, "backend": backend,
                        "variant": variant, "scenario": scenario, "opts": dict(opts), "base": base})
@@ -293,6 +299,19 @@ def do_replay(path):
     if rp.get("kind") == "batch-statistic":
         log("replaying a batch statistic: re-running the batch")
         return do_check(rp["property"], rp["tier"], rp["seed"], {})
+    if rp.get("kind") == "dirty-memory":
+        sigs = []
+        for fill, env in ((33, "malloc_fill_byte=33:max_malloc_fill_size=1073741824"), (90, "malloc_fill_byte=17:max_malloc_fill_size=1073741824")):
+            plan = re.sub(r" perturb=\d+", "", rp["plan"]).replace("\ncfg ", "\ncfg perturb=%d " % fill, 1)
+            os.environ["ASAN_OPTIONS"] = env
+            rec, rc, err = run_plan(exe, plan, rp["backend"], rp["variant"])
+            sigs.append(rec["evhash"] if rec else "died:%s" % rc)
+        print("replay: event hashes under two fill patterns:", sigs)
+        if sigs[0] != sigs[1]:
+            print("VIOLATION property=%s replay=%s" % (rp["property"], path))
+            return 1
+        print("replay did not reproduce the recorded violation")
+        return 0
     rec, rc, err = run_plan(exe, rp["plan"], rp["backend"], rp["variant"])
     if rp.get("death"):
         c, where = classify_death(rc, err)
@@ -327,6 +346,7 @@ def do_check(prop, tier, seed, extra):
     log("[%s] tree %s, %d batches, tier %s, seed %d (build %.1fs)" % (prop, th, len(batches), tier, seed, time.time() - t0))
     # ---- determinism preamble: a sample of seeds of every batch kind is executed twice (1 worker and many workers)
     det = {"seeds": 0, "mismatches": 0}
+    dirty = []
     if rc_.get("determinism", True):
         det_batches = []
         for b in batches:
@@ -338,15 +358,30 @@ def do_check(prop, tier, seed, extra):
             det_batches.append(nb)
         if det_batches:
             r1 = run_batches(exes, [dict(b, max_procs=1) for b in det_batches], seed)
-            r2 = run_batches(exes, [dict(b, max_procs=3) for b in det_batches], seed)
-            for (a, da, _), (b, db, _) in zip(r1, r2):
-                ha = {x["seed"]: x["evhash"] + x["status"] + x["sched_hash"] for x in a}
-                hb = {x["seed"]: x["evhash"] + x["status"] + x["sched_hash"] for x in b}
+            # second execution: other worker count AND another heap fill pattern (dirty-memory differential)
+            r2 = run_batches(exes, [dict(b, max_procs=3, opts=dict(b.get("opts", {}), perturb=90),
+                                         env=dict(b.get("env", {}), ASAN_OPTIONS="malloc_fill_byte=17:max_malloc_fill_size=1073741824")) for b in det_batches], seed)
+            sig = lambda x: x["evhash"] + x["status"] + x["sched_hash"]
+            suspects = []
+            for bi, ((a, da, _), (b, db, _)) in enumerate(zip(r1, r2)):
+                ha = {x["seed"]: sig(x) for x in a}
+                hb = {x["seed"]: sig(x) for x in b}
                 det["seeds"] += len(ha)
-                for s in ha:
-                    if hb.get(s) != ha[s]:
+                for s_ in ha:
+                    if hb.get(s_) != ha[s_]:
+                        suspects.append((bi, s_))
+            if suspects:
+                # third execution with the configuration of the first: tells simulator non-determinism from a dependence on the heap fill pattern
+                r3 = run_batches(exes, [dict(b, max_procs=2) for b in det_batches], seed)
+                for bi, s_ in suspects:
+                    h1 = {x["seed"]: sig(x) for x in r1[bi][0]}.get(s_)
+                    h3 = {x["seed"]: sig(x) for x in r3[bi][0]}.get(s_)
+                    if h1 != h3:
                         det["mismatches"] += 1
-                        log("DETERMINISM MISMATCH seed", s, ha[s], hb.get(s))
+                        log("DETERMINISM MISMATCH batch %s seed %s" % (det_batches[bi].get("name"), s_))
+                    else:
+                        det.setdefault("dirty_memory_dependent", []).append({"batch": det_batches[bi].get("name"), "seed": s_})
+                        dirty.append((det_batches[bi], s_))
             if det["mismatches"]:
                 log("SIM-ERROR: simulator is not deterministic; no verdict")
                 return 2
@@ -393,6 +428,12 @@ def do_check(prop, tier, seed, extra):
             for r in recs[:2]:
                 if "sample" in r:
                     samples.append({"batch": b.get("name"), "seed": r["seed"], "case": r["sample"], "faults": r.get("faults", {})})
+    # ---- dirty-memory differential: the same plan gave different observable results under two heap fill patterns
+    for b, s_ in dirty:
+        if "dirty" in rc_.get("extra_oracles", []):
+            violations.append({"dirty": {"batch": b, "seed": s_}})
+        else:
+            log("note: run %s of batch %s depends on the heap fill pattern (uninitialised read influencing a result): decided by C16" % (s_, b.get("name")))
     # ---- batch-level oracles (statistics)
     judged = {}
     if "judge" in rc_:
@@ -416,6 +457,25 @@ def do_check(prop, tier, seed, extra):
             json.dump({"property": prop, "kind": "batch-statistic", "tier": tier, "seed": seed, "violation": bs, "tree": th,
                        "variant": batches[0]["variant"], "backend": batches[0]["backend"]}, open(path, "w"), indent=1)
             out_viol.append((path, bs["oracle"] + ": " + bs["detail"]))
+            continue
+        if "dirty" in v:
+            b = v["dirty"]["batch"]
+            exe = exes[(b["backend"], b["variant"])]
+            cmd = [exe, "gen", "--scenario", b["scenario"], "--seed", str(v["dirty"]["seed"])]
+            for kk, vv in sorted(b.get("opts", {}).items()):
+                cmd += ["--opt", "%s=%s" % (kk, vv)]
+            plan = subprocess.run(cmd, stdout=subprocess.PIPE).stdout.decode()
+            text = "dirty-memory|%s|%s|%s" % (b["scenario"], b["backend"], b["variant"])
+            k = match_known(known, prop, text)
+            if k:
+                known_hits[k["what"]] = known_hits.get(k["what"], 0) + 1
+                continue
+            path = os.path.join(VERIF, "replays", "%s-dirty-%s.json" % (prop, hashlib.sha1(plan.encode()).hexdigest()[:10]))
+            json.dump({"property": prop, "kind": "dirty-memory", "scenario": b["scenario"], "backend": b["backend"], "variant": b["variant"], "tree": th,
+                       "plan": plan, "violation": {"cls": "uninitialised-read", "oracle": "C16.dirty",
+                                                   "detail": "the same plan gives different observable results under two heap fill patterns"}}, open(path, "w"), indent=1)
+            if len([x for x in out_viol if "dirty" in x[0]]) < 3:
+                out_viol.append((path, "uninitialised-read / C16.dirty: plan of seed %s (%s) gives different results under two heap fill patterns" % (v["dirty"]["seed"], b.get("name"))))
             continue
         b = v["batch"]
         exe = exes[(b["backend"], b["variant"])]
